@@ -92,4 +92,19 @@ MUTANTS = [
     N("C04", "local alias for the thread's windows", TP,
       "        for eventid in state[event.tid]:\n            state[event.tid][eventid].append(event)\n\n        events = state[event.tid].pop(event.eventid)",
       "        windows = state[event.tid]\n        for eventid in windows:\n            windows[eventid].append(event)\n\n        events = windows.pop(event.eventid)"),
+    N("C04", "END guard through state.get(tid, {})", TP,
+      "        if event.tid not in state or event.eventid not in state[event.tid]:\n            # Event end without start.\n            return\n\n        for eventid in state[event.tid]:\n            state[event.tid][eventid].append(event)\n\n        events = state[event.tid].pop(event.eventid)",
+      "        pending = state.get(event.tid, {})\n        if event.eventid not in pending:\n            return\n        for window in pending.values():\n            window.append(event)\n        events = pending.pop(event.eventid)"),
+    F("C04", "END through state.get(tid, {}) without the open-code guard", TP,
+      "        if event.tid not in state or event.eventid not in state[event.tid]:\n            # Event end without start.\n            return\n\n        for eventid in state[event.tid]:\n            state[event.tid][eventid].append(event)\n\n        events = state[event.tid].pop(event.eventid)",
+      "        pending = state.get(event.tid, {})\n        for window in pending.values():\n            window.append(event)\n        if event.eventid not in pending:\n            return\n        events = pending.pop(event.eventid)", "K4"),
+    N("C04", "feed_generator as yield from a filtered map", TP,
+      "        for event in generator:\n            ret = self.feed(event)\n            if ret is not None:\n                yield ret",
+      "        yield from (trace for trace in map(self.feed, generator) if trace is not None)"),
+    F("C04", "feed_generator as yield from map: None results emitted", TP,
+      "        for event in generator:\n            ret = self.feed(event)\n            if ret is not None:\n                yield ret",
+      "        yield from map(self.feed, generator)", "K8"),
+    N("C04", "parse_event_list through chained .get", TP,
+      "        if events[0].eventid not in self.trace_codes:\n            return None\n        trace_name = self.trace_codes[events[0].eventid]\n        if trace_name not in self.handlers:\n            return None\n        return self.handlers[trace_name](self, events)",
+      "        handler = self.handlers.get(self.trace_codes.get(events[0].eventid))\n        return None if handler is None else handler(self, events)"),
 ]
